@@ -142,7 +142,22 @@ def plan(rng, tier):
             steps.append(rng.choice([["commit"], ["commit"],
                                      ["evict", "minimize"],
                                      ["evict", "parked",
-                                      rng.choice(sorted(open_slots))]]))
+                                      rng.choice(sorted(open_slots))],
+                                     # the transaction is aborted under the
+                                     # cursors (changed nodes are invalidated
+                                     # and come back with their committed
+                                     # contents)
+                                     ["abort"],
+                                     # another client commits changes to the
+                                     # same container; this one synchronises
+                                     # (the changed nodes are invalidated
+                                     # under the cursors and reload with
+                                     # OTHER contents)
+                                     ["remote",
+                                      [rng.choice([["set", rng.randrange(nk),
+                                                    rng.randrange(nv)],
+                                                   ["del", rng.randrange(nk)]])
+                                       for _ in range(rng.randint(1, 6))]]]))
         else:
             s = rng.choice(sorted(open_slots))
             a = rng.random()
@@ -170,7 +185,7 @@ def simplify(plan):
         p = copy.deepcopy(plan)
         p["cfg"]["stored"] = False
         p["steps"] = [s for s in p["steps"]
-                      if s[0] not in ("commit", "evict")]
+                      if s[0] not in ("commit", "evict", "abort", "remote")]
         yield p
 
 
@@ -212,6 +227,7 @@ class _Run(object):
                                       self.impl)
             self.conn.add(self.c)
         self.model = {}          # key index -> real value (or True)
+        self.committed = {}
         self.ever_keys = set()
         self.ever_vals = set()
         self.ever_pairs = set()
@@ -247,6 +263,45 @@ class _Run(object):
         if self.mapping:
             self.ever_vals.add(self.vid(v))
             self.ever_pairs.add((kidx, self.vid(v)))
+
+    # -- transaction boundaries (stored containers)
+    def commit(self):
+        self.conn.commit()
+        if self.conn.hazards:
+            raise Precondition("known C04 finding: inline-duplicate")
+        self.committed = dict(self.model)
+
+    def remote(self, muts):
+        """another client changes the same container and commits; this
+        client (which first commits what it has) then synchronises"""
+        from ..world import SimConnection
+        self.commit()
+        rc = SimConnection(self.conn.storage, self.impl)
+        rt = rc.get(self.c._p_oid)
+        for m in muts:
+            kidx = m[1]
+            k = self.dom.key(kidx)
+            if m[0] == "set":
+                v = self.value(kidx, m[2])
+                self.note(kidx, v)
+                if self.mapping:
+                    rt[k] = v
+                else:
+                    rt.add(k)
+                self.model[kidx] = v
+            elif kidx in self.model:
+                if self.mapping:
+                    del rt[k]
+                else:
+                    rt.remove(k)
+                del self.model[kidx]
+        rc.commit()
+        if rc.hazards:
+            raise Precondition("known C04 finding: inline-duplicate")
+        self.committed = dict(self.model)
+        self.conn.begin()
+        for s in self.cursors:
+            self.leaf_event[s] = "invalidated"
 
     # -- mutations (kept in step with the model)
     def set(self, kidx, vidx):
@@ -528,9 +583,7 @@ def execute(plan, ctx):
     for op in plan["build"]:
         run.set(op[1], op[2])
     if run.conn is not None:
-        run.conn.commit()
-        if run.conn.hazards:
-            raise Precondition("known C04 finding: inline-duplicate")
+        run.commit()
     for step in plan["steps"]:
         t = step[0]
         if t == "cb":
@@ -545,10 +598,21 @@ def execute(plan, ctx):
             ctx.ev("c", step[1], step[2], out)
         elif t == "commit":
             if run.conn is not None:
-                run.conn.commit()
-                if run.conn.hazards:
-                    raise Precondition("known C04 finding: inline-duplicate")
+                run.commit()
                 ctx.ev("commit")
+        elif t == "abort":
+            if run.conn is not None:
+                run.conn.abort()
+                run.model = dict(run.committed)
+                for s in run.cursors:
+                    run.leaf_event[s] = "aborted"
+                ctx.fault("abort-under-cursor")
+                ctx.ev("abort")
+        elif t == "remote":
+            if run.conn is not None:
+                run.remote(step[1])
+                ctx.fault("remote-commit-under-cursor")
+                ctx.ev("remote")
         elif t == "evict":
             if run.conn is not None:
                 if step[1] == "parked":
